@@ -405,11 +405,10 @@ def run(case):
             else:
                 lo = len([p for p in prefixes if p[4] < rd["call"]]) - 1
                 hi = len([p for p in prefixes if p[3] < rd["ret"]]) - 1
-                ok_a = any(prefixes[i][0] == rd["view_a"] for i in range(lo, hi + 1))
-                ok_b = any(prefixes[i][1] == rd["view_b"] for i in range(lo, hi + 1))
+                # first look = prefix i, second look = prefix i' with lo <= i <= i' <= hi
                 ia = [i for i in range(lo, hi + 1) if prefixes[i][0] == rd["view_a"]]
-                ib = [i for i in range(lo, hi + 1) if prefixes[i][1] == rd["view_b"] and (not ia or i >= min(ia))]
-                if not (ok_a and ok_b and ib):
+                ib = [i for i in range(lo, hi + 1) if prefixes[i][1] == rd["view_b"] and ia and i >= ia[0]]
+                if not ib:
                     raise Violation(
                         "readers",
                         f"lock-free read {rd['thread']}#{rd['k']} saw tags {sorted(rd['view_a'])} then last {sorted(rd['view_b'])}: "
@@ -468,7 +467,9 @@ def _schedule(draw):
     if mode == "rr":
         return []
     if mode == "random":
-        return draw(st.lists(st.integers(0, 7), min_size=0, max_size=400))
+        # Hypothesis' own list sizes are heavily skewed to short lists: draw the length
+        n = draw(st.integers(0, 400))
+        return draw(st.lists(st.integers(0, 7), min_size=n, max_size=n))
     if mode == "short":
         return draw(st.lists(st.integers(0, 7), min_size=0, max_size=40))
     segs = draw(st.lists(st.tuples(st.integers(0, 7), st.integers(1, 30)), min_size=1, max_size=40))
@@ -503,7 +504,7 @@ def parts(tier):
             "schedules",
             run,
             strategy=cases(),
-            n={"quick": 3000, "thorough": 16 * 30000},
+            n={"quick": 10000, "thorough": 16 * 20000},
             require={
                 "contention": 500,
                 "line_switch_in_writer": 500,
